@@ -390,11 +390,23 @@ def run(ctx) -> None:
     scan_cb(Enumerator(cfgq).run(D.methods["run"], selfcls="EventDebouncer"))
     ctx.check(okq and nq > 0, RQ, "EventDebouncer.run delivers after a quiet interval", msgq or "no debounced hand-over found", D.methods["run"].loc)
     okp, msgp, nuw = True, "", 0
-    for p in walk_all(rp):
+    def walk_prefixed(ps, prefix):
+        """(events that led into the loops around the path, path)"""
+        for p_ in ps:
+            yield prefix, p_
+            for i_, e_ in enumerate(p_.evs):
+                if e_.kind == "loop":
+                    yield from walk_prefixed(e_.extra["paths"], prefix + p_.evs[:i_])
+
+    for pre, p in walk_prefixed(rp, []):
         for i, e in enumerate(p.evs):
             if e.kind == "wait" and not e.extra.get("timed"):
                 nuw += 1
-                c = {x.text: x.extra.get("truth") for x in p.evs[:i] if x.kind == "cond"}
+                # the tests made since the last wait, including those on the way into the loops around this one (a test whose outcome
+                # was still known is not repeated by the engine)
+                before = pre + p.evs[:i]
+                last_w = max([j for j, x in enumerate(before) if x.kind == "wait"], default=-1)
+                c = {x.text: x.extra.get("truth") for x in before[last_w + 1 :] if x.kind == "cond"}
                 if c.get("self._events") is not False:
                     okp, msgp = False, "the untimed wait is reached while events are pending: they are not delivered until something else notifies"
                 if c.get("self._stopped_event.is_set()") is not False and not any(("should_keep_running" in k and v) for k, v in c.items()):
